@@ -227,169 +227,177 @@ func corrC03(outDir string, seed uint64, tier string, replay string) *report {
 	}
 	for i := 0; i < nPer; i++ {
 		pw := pwOf(i)
-		// ---- md5 ----
-		{
-			salt := r.str(i%9, alphaCrypt)
-			key, err := md5.Key([]byte(pw), []byte(salt))
-			if err == nil {
-				a := map[string]interface{}{"password_len": len(pw), "salt": salt}
-				cmp("md5", "impl", a, key, "md5crypt "+hx([]byte(pw))+" "+hx([]byte(salt)))
-				if i%2 == 0 {
-					cmp("md5", "spec", a, key, "md5crypt_spec "+hx([]byte(pw))+" "+hx([]byte(salt)))
+		func() {
+			// a panic of the library inside this iteration is a failing input of its own
+			defer func() {
+				if r := recover(); r != nil {
+					notePanic("Key/NewHash of a classic scheme (C03 iteration)", "password_hex="+hx([]byte(pw))+"; "+firstLibFrame(), r)
 				}
-				ref("md5", a, pw, "$1$"+salt+"$"+crypthash.LittleEndianEncoding.EncodeToString(key))
-				rep.count("md5"+pw+salt, len(pw) > 0)
-			}
-		}
-		// ---- sha256 / sha512 ----
-		for _, w := range []int{256, 512} {
-			salt := r.str(i%17, alphaCrypt)
-			rounds := uint32(1000 + i%4)
-			var key []byte
-			var err error
-			name := "sha256"
-			if w == 256 {
-				key, err = sha256.Key([]byte(pw), []byte(salt), rounds)
-			} else {
-				name = "sha512"
-				key, err = sha512.Key([]byte(pw), []byte(salt), rounds)
-			}
-			if err != nil || (w == 512 && i%2 == 1 && tier != "thorough") {
-				continue
-			}
-			a := map[string]interface{}{"password_len": len(pw), "salt": salt, "rounds": rounds}
-			cmp(name, "impl", a, key, fmt.Sprintf("%scrypt %s %s %d", name, hx([]byte(pw)), hx([]byte(salt)), rounds))
-			if i%2 == 0 {
-				cmp(name, "spec", a, key, fmt.Sprintf("%scrypt_spec %s %s %d", name, hx([]byte(pw)), hx([]byte(salt)), rounds))
-			}
-			ref(name, a, pw, fmt.Sprintf("$%d$rounds=%d$%s$%s", map[int]int{256: 5, 512: 6}[w], rounds, salt, crypthash.LittleEndianEncoding.EncodeToString(key)))
-			rep.count(name+pw+salt, len(pw) > 0)
-		}
-		// ---- sha1 ----
-		{
-			salt := r.str(i%20, alphaCrypt)
-			if i%7 == 0 {
-				salt = r.str(64, alphaCrypt)
-			}
-			rounds := uint32(1 + i%40)
-			key, err := sha1.Key([]byte(pw), []byte(salt), rounds)
-			if err == nil {
-				a := map[string]interface{}{"password_len": len(pw), "salt": salt, "rounds": rounds}
-				cmp("sha1", "impl", a, key, fmt.Sprintf("sha1crypt %s %s %d", hx([]byte(pw)), hx([]byte(salt)), rounds))
-				ref("sha1", a, pw, fmt.Sprintf("$sha1$%d$%s$%s", rounds, salt, crypthash.LittleEndianEncoding.EncodeToString(key)))
-				rep.count("sha1"+pw+salt, len(pw) > 0)
-			}
-		}
-		// ---- sunmd5 ----
-		if (i%8 == 0 || tier == "thorough") && len(pw) <= 255 {
-			salt := r.str(i%9, alphaCrypt)
-			rounds := uint32(i % 3)
-			for _, o := range []*sunmd5.CompatibilityOptions{nil, {Prefix: "$md5$", DisableSaltSeparator: true}, {Prefix: "$md5,", DisableSaltSeparator: false}} {
-				key, err := sunmd5.Key([]byte(pw), []byte(salt), rounds, o)
-				if err != nil {
-					continue
-				}
-				// the salt string the implementation hashes: the codec's marshalling of saltScheme (the codec is C10's
-				// subject; here it only supplies the input of the modelled derivation)
-				prefix, nosep := "$md5,", false
-				if o == nil {
-					if rounds == 0 {
-						prefix = "$md5$"
+			}()
+			// ---- md5 ----
+			{
+				salt := r.str(i%9, alphaCrypt)
+				key, err := md5.Key([]byte(pw), []byte(salt))
+				if err == nil {
+					a := map[string]interface{}{"password_len": len(pw), "salt": salt}
+					cmp("md5", "impl", a, key, "md5crypt "+hx([]byte(pw))+" "+hx([]byte(salt)))
+					if i%2 == 0 {
+						cmp("md5", "spec", a, key, "md5crypt_spec "+hx([]byte(pw))+" "+hx([]byte(salt)))
 					}
+					ref("md5", a, pw, "$1$"+salt+"$"+crypthash.LittleEndianEncoding.EncodeToString(key))
+					rep.count("md5"+pw+salt, len(pw) > 0)
+				}
+			}
+			// ---- sha256 / sha512 ----
+			for _, w := range []int{256, 512} {
+				salt := r.str(i%17, alphaCrypt)
+				rounds := uint32(1000 + i%4)
+				var key []byte
+				var err error
+				name := "sha256"
+				if w == 256 {
+					key, err = sha256.Key([]byte(pw), []byte(salt), rounds)
 				} else {
-					prefix, nosep = o.Prefix, o.DisableSaltSeparator
+					name = "sha512"
+					key, err = sha512.Key([]byte(pw), []byte(salt), rounds)
 				}
-				sv := reflect.New(sunmd5.VerifSaltSchemeType()).Elem()
-				sv.FieldByName("HashPrefix").SetString(prefix)
-				sv.FieldByName("Rounds").SetUint(uint64(rounds))
-				sv.FieldByName("Salt").SetBytes([]byte(salt))
-				if !nosep {
-					empty := ""
-					sv.FieldByName("Separator").Set(reflect.ValueOf(&empty))
-				}
-				ss, _ := crypthash.Marshal(sv.Interface())
-				a := map[string]interface{}{"password_len": len(pw), "salt": salt, "rounds": rounds, "saltstring": ss}
-				cmp("sunmd5", "impl", a, key, fmt.Sprintf("sunmd5 %s %s %d", hx([]byte(pw)), hx([]byte(ss)), rounds))
-				if o != nil && !nosep && salt != "" {
-					ref("sunmd5", a, pw, ss+"$"+crypthash.LittleEndianEncoding.EncodeToString(key))
-				}
-				rep.count("sunmd5"+pw+ss, true)
-			}
-		}
-		// ---- des / desext ----
-		{
-			p8 := pw
-			if len(p8) > 8 {
-				p8 = p8[:8]
-			}
-			salt := r.str(2, alphaCrypt)
-			if key, err := des.Key([]byte(p8), []byte(salt)); err == nil {
-				a := map[string]interface{}{"password_hex": hx([]byte(p8)), "salt": salt}
-				cmp("des", "impl", a, key, "des "+hx([]byte(p8))+" "+hx([]byte(salt)))
-				ref("des", a, p8, salt+crypthash.BigEndianEncoding.EncodeToString(key))
-				rep.count("des"+p8+salt, true)
-			}
-			salt4 := r.str(4, alphaCrypt)
-			rounds := uint32(1 + i%30)
-			if key, err := desext.Key([]byte(pw), []byte(salt4), rounds); err == nil {
-				a := map[string]interface{}{"password_len": len(pw), "salt": salt4, "rounds": rounds}
-				cmp("desext", "impl", a, key, fmt.Sprintf("desext %s %s %d", hx([]byte(pw)), hx([]byte(salt4)), rounds))
-				rb := make([]byte, 4)
-				for k := 0; k < 4; k++ {
-					rb[k] = alphaCrypt[(rounds>>uint(6*k))&63]
-				}
-				ref("desext", a, pw, "_"+string(rb)+salt4+crypthash.BigEndianEncoding.EncodeToString(key))
-				rep.count("desext"+pw+salt4, len(pw) > 8)
-			}
-		}
-		// ---- bcrypt ----
-		if i%2 == 0 {
-			raw := r.bytes(16)
-			salt := bcrypt.Encoding.EncodeToString(raw)
-			for _, prefix := range []string{"$2b$", "$2a$", "$2$"} {
-				if prefix == "$2$" && len(pw) == 0 {
+				if err != nil || (w == 512 && i%2 == 1 && tier != "thorough") {
 					continue
 				}
-				key, err := bcrypt.Key([]byte(pw), []byte(salt), 4, &bcrypt.CompatibilityOptions{Prefix: prefix})
-				if err != nil {
-					continue
+				a := map[string]interface{}{"password_len": len(pw), "salt": salt, "rounds": rounds}
+				cmp(name, "impl", a, key, fmt.Sprintf("%scrypt %s %s %d", name, hx([]byte(pw)), hx([]byte(salt)), rounds))
+				if i%2 == 0 {
+					cmp(name, "spec", a, key, fmt.Sprintf("%scrypt_spec %s %s %d", name, hx([]byte(pw)), hx([]byte(salt)), rounds))
 				}
-				kb := bcryptKeyBytes(pw, prefix)
-				a := map[string]interface{}{"password_len": len(pw), "salt": salt, "prefix": prefix}
-				cmp("bcrypt", "impl", a, key, fmt.Sprintf("bcrypt %s %s 4", hx(kb), hx([]byte(salt))))
-				if i%4 == 0 {
-					cmp("bcrypt", "spec", a, key, fmt.Sprintf("bcrypt_spec %s %s 4", hx(kb), hx([]byte(salt))))
-				}
-				if prefix != "$2$" && len(pw) <= 72 {
-					ref("bcrypt", a, pw, prefix+"04$"+salt+bcrypt.Encoding.EncodeToString(key))
-				}
-				rep.count("bcrypt"+pw+salt+prefix, true)
+				ref(name, a, pw, fmt.Sprintf("$%d$rounds=%d$%s$%s", map[int]int{256: 5, 512: 6}[w], rounds, salt, crypthash.LittleEndianEncoding.EncodeToString(key)))
+				rep.count(name+pw+salt, len(pw) > 0)
 			}
-		}
-		// ---- nthash: the UTF-16 encoding is the modelled part ----
-		{
-			s := pw
-			if i%5 == 0 {
-				s = "héllo € \U0001F600" + pw
+			// ---- sha1 ----
+			{
+				salt := r.str(i%20, alphaCrypt)
+				if i%7 == 0 {
+					salt = r.str(64, alphaCrypt)
+				}
+				rounds := uint32(1 + i%40)
+				key, err := sha1.Key([]byte(pw), []byte(salt), rounds)
+				if err == nil {
+					a := map[string]interface{}{"password_len": len(pw), "salt": salt, "rounds": rounds}
+					cmp("sha1", "impl", a, key, fmt.Sprintf("sha1crypt %s %s %d", hx([]byte(pw)), hx([]byte(salt)), rounds))
+					ref("sha1", a, pw, fmt.Sprintf("$sha1$%d$%s$%s", rounds, salt, crypthash.LittleEndianEncoding.EncodeToString(key)))
+					rep.count("sha1"+pw+salt, len(pw) > 0)
+				}
 			}
-			enc := ntEncode(s)
-			cmp("nthash", "encode", map[string]interface{}{"password_hex": hx([]byte(s))}, enc, "ntencode "+hx([]byte(s)))
-			if h, err := nthash.NewHash(s); err == nil {
-				ascii := true
-				for k := 0; k < len(s); k++ {
-					if s[k] >= 0x80 {
-						ascii = false
+			// ---- sunmd5 ----
+			if (i%8 == 0 || tier == "thorough") && len(pw) <= 255 {
+				salt := r.str(i%9, alphaCrypt)
+				rounds := uint32(i % 3)
+				for _, o := range []*sunmd5.CompatibilityOptions{nil, {Prefix: "$md5$", DisableSaltSeparator: true}, {Prefix: "$md5,", DisableSaltSeparator: false}} {
+					key, err := sunmd5.Key([]byte(pw), []byte(salt), rounds, o)
+					if err != nil {
+						continue
+					}
+					// the salt string the implementation hashes: the codec's marshalling of saltScheme (the codec is C10's
+					// subject; here it only supplies the input of the modelled derivation)
+					prefix, nosep := "$md5,", false
+					if o == nil {
+						if rounds == 0 {
+							prefix = "$md5$"
+						}
+					} else {
+						prefix, nosep = o.Prefix, o.DisableSaltSeparator
+					}
+					sv := reflect.New(sunmd5.VerifSaltSchemeType()).Elem()
+					sv.FieldByName("HashPrefix").SetString(prefix)
+					sv.FieldByName("Rounds").SetUint(uint64(rounds))
+					sv.FieldByName("Salt").SetBytes([]byte(salt))
+					if !nosep {
+						empty := ""
+						sv.FieldByName("Separator").Set(reflect.ValueOf(&empty))
+					}
+					ss, _ := crypthash.Marshal(sv.Interface())
+					a := map[string]interface{}{"password_len": len(pw), "salt": salt, "rounds": rounds, "saltstring": ss}
+					cmp("sunmd5", "impl", a, key, fmt.Sprintf("sunmd5 %s %s %d", hx([]byte(pw)), hx([]byte(ss)), rounds))
+					if o != nil && !nosep && salt != "" {
+						ref("sunmd5", a, pw, ss+"$"+crypthash.LittleEndianEncoding.EncodeToString(key))
+					}
+					rep.count("sunmd5"+pw+ss, true)
+				}
+			}
+			// ---- des / desext ----
+			{
+				p8 := pw
+				if len(p8) > 8 {
+					p8 = p8[:8]
+				}
+				salt := r.str(2, alphaCrypt)
+				if key, err := des.Key([]byte(p8), []byte(salt)); err == nil {
+					a := map[string]interface{}{"password_hex": hx([]byte(p8)), "salt": salt}
+					cmp("des", "impl", a, key, "des "+hx([]byte(p8))+" "+hx([]byte(salt)))
+					ref("des", a, p8, salt+crypthash.BigEndianEncoding.EncodeToString(key))
+					rep.count("des"+p8+salt, true)
+				}
+				salt4 := r.str(4, alphaCrypt)
+				rounds := uint32(1 + i%30)
+				if key, err := desext.Key([]byte(pw), []byte(salt4), rounds); err == nil {
+					a := map[string]interface{}{"password_len": len(pw), "salt": salt4, "rounds": rounds}
+					cmp("desext", "impl", a, key, fmt.Sprintf("desext %s %s %d", hx([]byte(pw)), hx([]byte(salt4)), rounds))
+					rb := make([]byte, 4)
+					for k := 0; k < 4; k++ {
+						rb[k] = alphaCrypt[(rounds>>uint(6*k))&63]
+					}
+					ref("desext", a, pw, "_"+string(rb)+salt4+crypthash.BigEndianEncoding.EncodeToString(key))
+					rep.count("desext"+pw+salt4, len(pw) > 8)
+				}
+			}
+			// ---- bcrypt ----
+			if i%2 == 0 {
+				raw := r.bytes(16)
+				salt := bcrypt.Encoding.EncodeToString(raw)
+				for _, prefix := range []string{"$2b$", "$2a$", "$2$"} {
+					if prefix == "$2$" && len(pw) == 0 {
+						continue
+					}
+					key, err := bcrypt.Key([]byte(pw), []byte(salt), 4, &bcrypt.CompatibilityOptions{Prefix: prefix})
+					if err != nil {
+						continue
+					}
+					kb := bcryptKeyBytes(pw, prefix)
+					a := map[string]interface{}{"password_len": len(pw), "salt": salt, "prefix": prefix}
+					cmp("bcrypt", "impl", a, key, fmt.Sprintf("bcrypt %s %s 4", hx(kb), hx([]byte(salt))))
+					if i%4 == 0 {
+						cmp("bcrypt", "spec", a, key, fmt.Sprintf("bcrypt_spec %s %s 4", hx(kb), hx([]byte(salt))))
+					}
+					if prefix != "$2$" && len(pw) <= 72 {
+						ref("bcrypt", a, pw, prefix+"04$"+salt+bcrypt.Encoding.EncodeToString(key))
+					}
+					rep.count("bcrypt"+pw+salt+prefix, true)
+				}
+			}
+			// ---- nthash: the UTF-16 encoding is the modelled part ----
+			{
+				s := pw
+				if i%5 == 0 {
+					s = "héllo € \U0001F600" + pw
+				}
+				enc := ntEncode(s)
+				cmp("nthash", "encode", map[string]interface{}{"password_hex": hx([]byte(s))}, enc, "ntencode "+hx([]byte(s)))
+				if h, err := nthash.NewHash(s); err == nil {
+					ascii := true
+					for k := 0; k < len(s); k++ {
+						if s[k] >= 0x80 {
+							ascii = false
+						}
+					}
+					if ascii {
+						ref("nthash", map[string]interface{}{"password_hex": hx([]byte(s))}, s, h)
 					}
 				}
-				if ascii {
-					ref("nthash", map[string]interface{}{"password_hex": hx([]byte(s))}, s, h)
-				}
+				rep.count("nthash"+s, len(s) > 0)
 			}
-			rep.count("nthash"+s, len(s) > 0)
-		}
-		if i == 5 {
-			rep.sample(map[string]interface{}{"password_hex": hx([]byte(pw)), "model_primitive_calls_so_far": m.calls})
-		}
+			if i == 5 {
+				rep.sample(map[string]interface{}{"password_hex": hx([]byte(pw)), "model_primitive_calls_so_far": m.calls})
+			}
+		}()
 	}
 	rep.Distribution["model_primitive_calls"] = m.calls
 	rep.Rule = "per scheme: passwords of length 0..19, 31..253 and random (8-bit, NUL-free), salts of every legal length, cheap rounds; the implementation's Key vs the extracted Coq model of the in-repo KDF control code (impl) and vs the specification function (spec), both run with the real primitives served by the harness; the encoded hash vs libxcrypt 4.4 crypt(3) (secondary oracle, both directions coincide when strings are equal). Non-trivial = non-empty password; distinct by (scheme, password, salt)."
